@@ -389,7 +389,17 @@ def run(run):
                        ("list-profile", dict(layer_r0s=list(g0["layer_r0s"]), layer_L0s=list(g0["layer_L0s"]),
                                              gs_positions=[list(x) for x in g0["gs_positions"]], subap_diameters=list(g0["subap_diameters"]))),
                        ("float32-sensors", dict(wfs_wavelengths=g0["wfs_wavelengths"].astype("float32"),
-                                                subap_diameters=g0["subap_diameters"].astype("float32")))):
+                                                subap_diameters=g0["subap_diameters"].astype("float32"))),
+                       # configurations in which the two transcriptions of the pair loop could part company
+                       ("fewer-layers-than-profile-entries", dict(n_layers=1)),
+                       ("three-entry-profile-two-layers-used", dict(n_layers=2, layer_altitudes=np.array([0.0, 8000.0, 14000.0]),
+                                                                    layer_r0s=np.array([0.15, 0.3, 0.5]), layer_L0s=np.array([25.0, 40.0, 30.0]))),
+                       ("three-layers", dict(n_layers=3, layer_altitudes=np.array([0.0, 8000.0, 14000.0]),
+                                             layer_r0s=np.array([0.15, 0.3, 0.5]), layer_L0s=np.array([25.0, 40.0, 30.0]))),
+                       ("layer-above-rayleigh-guide-star", dict(gs_altitudes=np.array([0.0, 6000.0, 12000.0][:nw]),
+                                                                layer_altitudes=np.array([0.0, 8000.0]))),
+                       ("equal-wavelengths-unequal-diameters", dict(wfs_wavelengths=np.array([600e-9] * nw),
+                                                                    subap_diameters=np.array([1.0, 0.5, 1.0][:nw])))):
         ref2 = np.array(new_object(sc, nw, mod=mod).make_covariance_matrix(), copy=True)
         for kk in (2, 3):
             cm = new_object(sc, nw, mod=mod)
